@@ -256,6 +256,9 @@ def run_check(check, tier, seed, replay=None):
                 item = {"viol": viol, "ctx": ctx, "path": v["path"], "start": s, "end": e, "lines": lines}
                 (known_hits if k else violations).append((item, k))
             drifts += [d for d in v["drifts"] if True]
+        if counts.get("hook_silent", 0) > 0:
+            machinery.append("an instrumentation hook logged nothing in %d place(s) where it must fire (hook removed or moved by the change under test?): "
+                             "the properties that depend on it were not evaluated there" % counts["hook_silent"])
         for rr in rec_results:
             if rr["rc"] != 0 and not rr.get("crash_marked"):
                 machinery.append("recorder %s failed rc=%s: %s" % (rr["label"], rr["rc"], rr["stderr"][-800:]))
